@@ -72,7 +72,8 @@ def class_decls(tier):
             out.append((base, (m.tag,)))
         pairs = [("dep", "req"), ("dep-default", "optional"), ("alias", "alias-from"), ("no-input", "no-output"),
                  ("readonly", "writeonly-req"), ("ci-alias", "req"), ("mode-ra", "default"), ("alias-both", "factory"),
-                 ("no-input-w", "no-output-r"), ("exclude", "preserve")]
+                 ("no-input-w", "no-output-r"), ("exclude", "preserve"), ("dep", "alias"), ("dep-default", "alias-both"),
+                 ("dep", "ci-alias")]
         if tier == "thorough":
             tags = [m.tag for m in menu if not m.deps]
             pairs += [(a, b) for a in tags[:12] for b in tags[:12]]
@@ -302,6 +303,11 @@ def _one_class(acc, base, tags, fields, cexpr, cls, src, mode):
         # a dependency / mode corner: structure is only compared when the all-fields input is accepted
         acc.extra["structure_not_compared:all-fields input rejected"] += 1
         return
+    for trig, deps_ in (doc.get("dependentRequired") or {}).items():
+        for dname_ in [trig] + list(deps_):
+            if dname_ not in props:
+                viol("dependent-required-unknown-name", f"dependentRequired mentions {dname_!r}, which is not a listed property "
+                                                        f"({sorted(props)})")
     listed = {}
     for pname, pdoc in props.items():
         listed[pname] = pname
@@ -416,6 +422,12 @@ PROGRAMS = {
                [{"inner": {"w": 1}}, {"inner": {"w": "2", "tag": "t"}, "many": {"k": {"w": 3}}, "either": {"w": 4}}, {"inner": {"w": 1}, "either": "5"}]),
     "mutual": ("class A(Schema):\n    b: Optional['B'] = None\n    n: int = 0\nclass B(Schema):\n    a: Optional[A] = None\n    s: str = ''\n",
                "A", [{}, {"b": {"a": {"n": "1"}, "s": "x"}}]),
+    "same-name-two-scopes": ("def mk1():\n    class Item(Schema):\n        a: int\n    return Item\n"
+                             "def mk2():\n    class Item(Schema):\n        b: str\n        c: int = 0\n    return Item\n"
+                             "I1 = mk1()\nI2 = mk2()\n"
+                             "class Order(Schema):\n    first: I1\n    second: I2\n    more: List[I2] = Field(default_factory=list)\n",
+                             "Order", [{"first": {"a": 1}, "second": {"b": "x"}}, {"first": {"a": "2"}, "second": {"b": "y", "c": 3},
+                                                                                      "more": [{"b": "z"}]}]),
     "constrained-ref": ("class Code(str, Rule):\n    regex = '[A-Z]{2}'\n"
                         "class Item(Schema):\n    code: Code\n    codes: List[Code] = Field(default_factory=list)\n    price: Decimal = Field(ge=0, decimal_places=2, default=0)\n",
                         "Item", [{"code": "AB"}, {"code": "AB", "codes": ["CD", "EF"], "price": "1.50"}]),
